@@ -229,6 +229,9 @@ def _r3(ck: Checker, prog: Program, f) -> Tuple[Optional[str], Optional[str]]:
                             rest = [a for a in x.args if not same_rel(a, is_none)]
                             if rest and not any(H in a.free_symbols for a in rest):
                                 data_only.append(sp.Or(*rest) if len(rest) > 1 else rest[0])
+                    lits_ = literals(l)
+                    if not data_only and not targets and lits_ and not any(H in getattr(x, "free_symbols", set()) for x in lits_):
+                        data_only = [lits_[-1]]         # a condition on the data alone decides that nothing is written
                     if data_only and not targets:
                         ck.violation("C13.R3", fq, "propagation skipped for a given result object",
                                      f"when {data_only[0]} the function returns without writing the masks of the result object it was given: the object keeps "
